@@ -12,6 +12,13 @@ NOTE_COMMON = ("Trusted base: go/packages + go/types type-check of /repo's worki
 
 # id -> (technique, level text, level note, design ref)
 CLAIMS = {
+    "C15": (
+        "who-constructs / who-writes closure of the delivered bytes (single producer using the library's truncating serializer, constant read from the dependency's source), taint def-use from request fields to proposed entries with a closed recogniser of cut-at-first sanitisers (byte sets evaluated with go/constant), constant scan, command well-formedness at every send site",
+        "Partial (a sufficient condition): decides that every delivered line is produced by send() through Message.Bytes() (<= 510 bytes), that the store and the API hand the bytes on verbatim, "
+        "that every client-controlled string proposed as IRCFromClient/DeleteSession data is cut at the first LF, CR or NUL, that the server's own constants contain none of these bytes, and that every sent message has a well-formed command. "
+        "Third-party formatting of error texts echoed into replies is not decided.",
+        NOTE_COMMON,
+        "DESIGN.md section 3, C15"),
     "C08": (
         "reaching-definition + path-fact analysis of every dereference of getUnlocked's result, must/may lockset data-flow over the statement-level CFG (Wait under the write lock, Broadcast under the lock, every return releases, no upgrade), dominance of Broadcast by the successful write, pairing of every batch rewrite/deletion with the cache eviction in the same critical section",
         "Partial: decides four structural necessary conditions of 'never panics / never stays blocked although a successor exists' in the output stream: checked look-ups, condition-variable discipline, cache coherence and lock hygiene "
